@@ -43,6 +43,14 @@ def frameHolds (σ σ' : State) (s : Step) : Bool :=
       else observe σ' c == observe σ c
     | none => observe σ' c == observe σ c)
 
+/-- decidable well-formedness of a store (ids in range), checked by the runner after every step -/
+def wfB (σ : State) : Bool :=
+  (List.range σ.classes.length).all (fun c =>
+    (σ.mroOf c).all (· < σ.classes.length) &&
+    (σ.ownOf c).all (fun av => match av.2 with
+      | .list r | .tuple r | .anonDict r => decide (r < σ.heap.length)
+      | _ => true))
+
 /-! ### declarative schemas -/
 
 def lastWith (name : Option Str) : List Field → Option Str
